@@ -12,6 +12,8 @@
 //   E
 #include "acct.h"
 #include "core/nng_impl.h"
+#include "supplemental/websocket/base64.h"
+#include "supplemental/websocket/sha1.h"
 #include <arpa/inet.h>
 #include <errno.h>
 #include <netinet/in.h>
@@ -43,7 +45,8 @@ static struct {
 	size_t   nping;
 } cn[MAXC];
 static nng_socket sut;
-static int        sut_open, is_push;
+static int        sut_open, is_push, is_client, lfd = -1; // is_client: the socket dials, the driver is the WebSocket server
+static char       reqkey[64];                             // Sec-WebSocket-Key of the last upgrade request
 static size_t     scale = 1, fragsize;
 static uint16_t   port;
 static long       walk = -1;
@@ -148,8 +151,8 @@ server_frame(int c, int *op, int *fin, size_t *plen, size_t *hlen, int *wf)
 	*fin = (b[0] & 0x80) != 0;
 	*op  = b[0] & 0x0f;
 	*wf  = 1;
-	if ((b[0] & 0x70) != 0 || (b[1] & 0x80) != 0) {
-		*wf = 0; // reserved bits / masked frame from a server
+	if ((b[0] & 0x70) != 0 || ((b[1] & 0x80) != 0) != (is_client != 0)) {
+		*wf = 0; // reserved bits / a server must not mask, a client must
 	}
 	l = b[1] & 0x7f;
 	if (l == 126) {
@@ -185,6 +188,17 @@ server_frame(int c, int *op, int *fin, size_t *plen, size_t *hlen, int *wf)
 	}
 	if (l > RXCAP || n < h + l) {
 		return l > RXCAP ? (size_t) -1 : 0;
+	}
+	if (b[1] & 0x80) {
+		// unmask in place (once: the mask bit is cleared)
+		uint8_t *mk = b + h - 4;
+		for (size_t i = 0; i < l; i++) {
+			b[h + i] ^= mk[i & 3];
+		}
+		b[1] &= 0x7f;
+		memmove(b + h - 4, b + h, n - h);
+		cn[c].nrx -= 4;
+		h -= 4;
 	}
 	*plen = l;
 	*hlen = h;
@@ -277,6 +291,10 @@ main(int argc, char **argv)
 				nng_socket_close(sut);
 				sut_open = 0;
 			}
+			if (lfd >= 0) {
+				close(lfd);
+				lfd = -1;
+			}
 			nni_reap_sys_drain();
 			for (int i = 0; i < 10000 && acct_live_blocks() != live0; i++) {
 				nni_reap_sys_drain();
@@ -309,8 +327,9 @@ main(int argc, char **argv)
 			struct sockaddr_in si;
 			socklen_t          sl = sizeof(si);
 			char               url[64];
-			is_push  = !strcmp(a[0], "push");
-			scale    = (size_t) atol(a[4]);
+			is_push   = !strncmp(a[0], "push", 4);
+			is_client = a[0][4] == 'd'; // pulld / pushd: the socket dials
+			scale     = (size_t) atol(a[4]);
 			fragsize = (size_t) atol(a[3]) * scale;
 			memset(&si, 0, sizeof(si));
 			si.sin_family      = AF_INET;
@@ -329,6 +348,33 @@ main(int argc, char **argv)
 			}
 			sut_open = 1;
 			nng_socket_set_ms(sut, NNG_OPT_SENDTIMEO, 5000);
+			if (is_client) {
+				// the driver listens; the socket's dialer connects (and reconnects, 50 ms) on its own
+				nng_dialer d;
+				int        one = 1;
+				lfd = socket(AF_INET, SOCK_STREAM, 0);
+				setsockopt(lfd, SOL_SOCKET, SO_REUSEADDR, &one, sizeof(one));
+				si.sin_port = htons(port);
+				if (bind(lfd, (struct sockaddr *) &si, sizeof(si)) != 0 || listen(lfd, 8) != 0) {
+					fprintf(stderr, "driver: cannot listen on %u\n", port);
+					return 3;
+				}
+				if ((rv = nng_dialer_create(&d, sut, url)) != 0 ||
+				    (rv = nng_dialer_set_size(d, NNG_OPT_RECVMAXSZ, (size_t) atol(a[1]) * scale)) != 0 ||
+				    (rv = nng_dialer_set_size(d, NNG_OPT_WS_RECVMAXFRAME, (size_t) atol(a[2]) * scale)) != 0 ||
+				    (rv = nng_dialer_set_size(d, NNG_OPT_WS_SENDMAXFRAME, fragsize)) != 0 ||
+				    (rv = nng_dialer_set_ms(d, NNG_OPT_RECONNMINT, 50)) != 0 || (rv = nng_dialer_set_ms(d, NNG_OPT_RECONNMAXT, 50)) != 0 ||
+				    (rv = nng_dialer_start(d, NNG_FLAG_NONBLOCK)) != 0) {
+					if (lenient) {
+						skip_walk = 1;
+						continue;
+					}
+					fprintf(stderr, "driver: ws dial %s: %s\n", url, nng_strerror(rv));
+					return 3;
+				}
+				nni_verif_io_max = atol(a[5]) > 0 ? (size_t) atol(a[5]) : (size_t) INT32_MAX;
+				continue;
+			}
 			if ((rv = nng_listener_create(&l, sut, url)) != 0 ||
 			    (rv = nng_listener_set_size(l, NNG_OPT_RECVMAXSZ, (size_t) atol(a[1]) * scale)) != 0 ||
 			    (rv = nng_listener_set_size(l, NNG_OPT_WS_RECVMAXFRAME, (size_t) atol(a[2]) * scale)) != 0 ||
@@ -356,6 +402,117 @@ main(int argc, char **argv)
 			setsockopt(fd, IPPROTO_TCP, TCP_NODELAY, &one, sizeof(one));
 			cn[c].fd = rv == 0 ? fd : -1;
 			o("\"out\":{\"rv\":\"%s\"}", rv == 0 ? "ok" : strerror(errno));
+		} else if (!strcmp(cmd, "accept")) {
+			// client role: wait for the dialer's connection, read its upgrade request and check that it is well-formed
+			int           c = atoi(a[0]), wf = 1, one = 1;
+			struct pollfd pf = { lfd, POLLIN, 0 };
+			uint64_t      end = now_ms() + (lenient ? 500 : 8000);
+			char         *eoh = NULL;
+			cn[c].fd = -1;
+			if (poll(&pf, 1, lenient ? 500 : 8000) > 0) {
+				cn[c].fd = accept(lfd, NULL, NULL);
+			}
+			if (cn[c].fd >= 0) {
+				setsockopt(cn[c].fd, IPPROTO_TCP, TCP_NODELAY, &one, sizeof(one));
+				while (now_ms() < end && !cn[c].closed_seen) {
+					cn[c].rx[cn[c].nrx] = 0;
+					if ((eoh = strstr((char *) cn[c].rx, "\r\n\r\n")) != NULL) {
+						break;
+					}
+					pump(c, 100);
+				}
+			}
+			if (eoh != NULL) {
+				char  *r = (char *) cn[c].rx, *k;
+				char   want[96];
+				size_t hl = (size_t) (eoh - r) + 4;
+				*eoh = 0;
+				snprintf(want, sizeof(want), "\r\nSec-WebSocket-Protocol: %s.sp.nanomsg.org", is_push ? "pull" : "push");
+				if (strncmp(r, "GET /sp HTTP/1.1\r\n", 18) != 0 || strcasestr(r, "\r\nHost: ") == NULL ||
+				    strcasestr(r, "\r\nUpgrade: websocket") == NULL || strcasestr(r, "\r\nConnection: Upgrade") == NULL ||
+				    strstr(r, "\r\nSec-WebSocket-Version: 13") == NULL || strstr(r, want) == NULL) {
+					wf = 0;
+				}
+				for (char *q = r; q < eoh; q++) {
+					if (*q == '\n' && (q == r || q[-1] != '\r')) {
+						wf = 0;
+					}
+				}
+				reqkey[0] = 0;
+				if ((k = strcasestr(r, "\r\nSec-WebSocket-Key: ")) != NULL) {
+					sscanf(k + 21, "%63[^\r\n]", reqkey);
+				}
+				if (strlen(reqkey) != 24) {
+					wf = 0;
+				}
+				consume(c, hl);
+			}
+			o("\"out\":{\"rv\":\"%s\",\"wf\":%s}", eoh != NULL ? "ok" : (cn[c].fd < 0 ? "noconn" : "norequest"), (eoh != NULL && wf) ? "true" : "false");
+		} else if (!strcmp(cmd, "resp")) {
+			// client role: the driver's answer to the upgrade request
+			int         c = atoi(a[0]), expclosed = lenient ? 0 : atoi(a[2]), then_close = 0;
+			const char *k = a[1];
+			char        res[1024], accept[40] = "", own[96];
+			const char *st = "HTTP/1.1 101 Switching Protocols\r\n", *upg = "Upgrade: websocket\r\n", *conh = "Connection: Upgrade\r\n";
+			char        acch[96];
+			{
+				// Sec-WebSocket-Accept = base64(sha1(key + GUID))
+				uint8_t      dig[20];
+				nni_sha1_ctx ctx;
+				nni_sha1_init(&ctx);
+				nni_sha1_update(&ctx, reqkey, strlen(reqkey));
+				nni_sha1_update(&ctx, "258EAFA5-E914-47DA-95CA-C5AB0DC85B11", 36);
+				nni_sha1_final(&ctx, dig);
+				nni_base64_encode(dig, 20, accept, 28);
+				accept[28] = 0;
+			}
+			snprintf(acch, sizeof(acch), "Sec-WebSocket-Accept: %s\r\n", accept);
+			snprintf(own, sizeof(own), "Sec-WebSocket-Protocol: %s.sp.nanomsg.org\r\n", is_push ? "pull" : "push");
+			if (!strcmp(k, "bad_accept")) {
+				snprintf(acch, sizeof(acch), "Sec-WebSocket-Accept: AAAAAAAAAAAAAAAAAAAAAAAAAAA=\r\n");
+			} else if (!strcmp(k, "no_accept")) {
+				acch[0] = 0;
+			} else if (!strcmp(k, "no_upgrade")) {
+				upg = "";
+			} else if (!strcmp(k, "no_connection")) {
+				conh = "";
+			} else if (!strcmp(k, "upgrade_case")) {
+				upg = "Upgrade: WebSocket\r\n";
+			} else if (!strcmp(k, "wrong_proto")) {
+				snprintf(own, sizeof(own), "Sec-WebSocket-Protocol: pair.sp.nanomsg.org\r\n");
+			} else if (!strcmp(k, "no_proto")) {
+				own[0] = 0;
+			} else if (!strcmp(k, "status200")) {
+				st = "HTTP/1.1 200 OK\r\nContent-Length: 0\r\n";
+			} else if (!strcmp(k, "status400")) {
+				st = "HTTP/1.1 400 Bad Request\r\nContent-Length: 0\r\n";
+			} else if (!strcmp(k, "status404")) {
+				st = "HTTP/1.1 404 Not Found\r\nContent-Length: 0\r\n";
+			} else if (!strcmp(k, "garbage")) {
+				st = "\x01\x02 garbage\r\n";
+			} else if (!strcmp(k, "short_close")) {
+				then_close = 1;
+			} else if (strcmp(k, "ok") != 0) {
+				fprintf(stderr, "driver: bad resp item %s\n", k);
+				return 3;
+			}
+			snprintf(res, sizeof(res), "%s%s%s%s%s\r\n", st, upg, conh, acch, own);
+			write_all(cn[c].fd, (uint8_t *) res, then_close ? 12 : strlen(res));
+			if (then_close) {
+				close(cn[c].fd);
+				cn[c].closed_seen = 1;
+			}
+			{
+				uint64_t e2 = now_ms() + (expclosed ? 8000 : 40);
+				while (!cn[c].closed_seen && now_ms() < e2) {
+					pump(c, 10);
+				}
+				// a client that gives up after a 101 may say so with a close frame first: not an error, drop it
+				if (cn[c].closed_seen) {
+					cn[c].nrx = 0;
+				}
+			}
+			o("\"out\":{\"closed\":%s}", cn[c].closed_seen ? "true" : "false");
 		} else if (!strcmp(cmd, "http")) {
 			int         c = atoi(a[0]), expclosed = lenient ? 0 : atoi(a[2]), status = 0, wf = 1, then_close = 0;
 			const char *k = a[1];
